@@ -230,79 +230,176 @@ fn wait_drained<F: Fn() -> usize>(queued: F) {
     while queued() > 0 && t0.elapsed().as_secs() < 20 { std::thread::sleep(std::time::Duration::from_millis(1)); }
 }
 
-fn run_tcp(frames: &[Vec<u8>], cfg: Option<m_tcp::FilterConfig>, parallel: bool) -> Vec<String> {
+/// how a trace is pushed through an analyzer
+#[derive(Clone, Copy, PartialEq, Debug)]
+enum Mode {
+    Seq,      // one sequential analyzer object, analyze_pcap once per capture
+    Obj,      // one parallel analyzer object (with_config + with_filter + init_pool), analyze_pcap once per capture
+    ObjRe,    // same, init_pool called again before every capture (HTTP: after shutting the previous pool down)
+    Pool,     // a WorkerPool built directly, all captures dispatched in order
+}
+const QUEUE: usize = 8192;
+
+/// results per capture; modes whose pool outlives a capture return everything in one sorted group
+fn run_tcp(caps: &[Vec<Vec<u8>>], cfg: Option<m_tcp::FilterConfig>, twice: bool, mode: Mode, notes: &mut Vec<String>) -> Vec<Vec<String>> {
     use huginn_net_tcp::*;
-    let (tx, rx) = std::sync::mpsc::channel::<TcpAnalysisResult>();
-    if parallel {
-        let pool = WorkerPool::new(3, frames.len() + 1, 4, 2, tx, None, 1000, cfg).unwrap();
-        for f in frames { let _ = pool.dispatch(f.clone()); }
-        wait_drained(|| pool.stats().workers.iter().map(|w| w.queue_size).sum());
-        pool.shutdown();
-    } else {
-        let pc = TmpPcap::write(frames);
-        let mut a = HuginnNetTcp::new(None, 1000).unwrap();
-        if let Some(c) = cfg { a = a.with_filter(c); }
-        a.analyze_pcap(pc.path(), tx, None).unwrap();
+    let show = |rs: Vec<TcpAnalysisResult>| -> Vec<String> {
+        rs.into_iter().filter(|r| r.syn.is_some() || r.syn_ack.is_some() || r.mtu.is_some() || r.client_uptime.is_some() || r.server_uptime.is_some())
+            .map(|r| format!("{:?}", r)).collect() };
+    let reject_all = || m_tcp::FilterConfig::new().mode(m_tcp::FilterMode::Allow).with_ip_filter(m_tcp::IpFilter::new());
+    let install = |mut a: HuginnNetTcp| -> HuginnNetTcp { if let Some(c) = cfg.clone() { if twice { a = a.with_filter(reject_all()); } a = a.with_filter(c); } a };
+    match mode {
+        Mode::Seq => {
+            let mut a = install(HuginnNetTcp::new(None, 1000).unwrap());
+            caps.iter().map(|fs| { let (tx, rx) = std::sync::mpsc::channel(); let pc = TmpPcap::write(fs); a.analyze_pcap(pc.path(), tx, None).unwrap(); show(rx.iter().collect()) }).collect()
+        }
+        Mode::Obj | Mode::ObjRe => {
+            // process_parallel shuts the pool down at the end of every analyze_pcap: a new capture needs a new init_pool
+            let mut a = install(HuginnNetTcp::with_config(None, 1000, 3, QUEUE, 4, 2).unwrap());
+            caps.iter().map(|fs| {
+                let (tx, rx) = std::sync::mpsc::channel();
+                a.init_pool(tx).unwrap();
+                let (tx2, _rx2) = std::sync::mpsc::channel();
+                let pc = TmpPcap::write(fs);
+                a.analyze_pcap(pc.path(), tx2, None).unwrap();
+                let mut v = show(rx.iter().collect()); v.sort();
+                if let Some(st) = a.stats() { if st.total_dispatched + st.total_dropped != fs.len() as u64 || st.total_dropped != 0 {
+                    notes.push(format!("tcp pool stats after a capture of {} frames: dispatched={} dropped={}", fs.len(), st.total_dispatched, st.total_dropped)); } }
+                v
+            }).collect()
+        }
+        Mode::Pool => {
+            let (tx, rx) = std::sync::mpsc::channel();
+            let pool = WorkerPool::new(3, QUEUE, 4, 2, tx, None, 1000, cfg).unwrap();
+            for fs in caps { for f in fs { let _ = pool.dispatch(f.clone()); } }
+            wait_drained(|| pool.stats().workers.iter().map(|w| w.queue_size).sum());
+            pool.shutdown();
+            let mut v = show(rx.iter().collect()); v.sort();
+            vec![v]
+        }
     }
-    let mut v: Vec<String> = rx.iter()
-        .filter(|r| r.syn.is_some() || r.syn_ack.is_some() || r.mtu.is_some() || r.client_uptime.is_some() || r.server_uptime.is_some())
-        .map(|r| format!("{:?}", r)).collect();
-    if parallel { v.sort(); }
-    v
 }
-fn run_http(frames: &[Vec<u8>], cfg: Option<m_http::FilterConfig>, parallel: bool) -> Vec<String> {
+
+fn run_http(caps: &[Vec<Vec<u8>>], cfg: Option<m_http::FilterConfig>, twice: bool, mode: Mode, notes: &mut Vec<String>) -> Vec<Vec<String>> {
     use huginn_net_http::*;
-    let (tx, rx) = std::sync::mpsc::channel::<HttpAnalysisResult>();
-    if parallel {
-        let pool = WorkerPool::new(3, frames.len() + 1, 4, 2, tx, None, 1000, cfg).unwrap();
-        for f in frames { let _ = pool.dispatch(f.clone()); }
-        wait_drained(|| pool.stats().workers.iter().map(|w| w.queue_size).sum());
-        pool.shutdown();
-    } else {
-        let pc = TmpPcap::write(frames);
-        let mut a = HuginnNetHttp::new(None, 1000).unwrap();
-        if let Some(c) = cfg { a = a.with_filter(c); }
-        a.analyze_pcap(pc.path(), tx, None).unwrap();
+    let show = |rs: Vec<HttpAnalysisResult>| -> Vec<String> {
+        rs.into_iter().filter(|r| r.http_request.is_some() || r.http_response.is_some()).map(|r| strip_timing(format!("{:?}", r))).collect() };
+    let reject_all = || m_http::FilterConfig::new().mode(m_http::FilterMode::Allow).with_ip_filter(m_http::IpFilter::new());
+    let install = |mut a: HuginnNetHttp| -> HuginnNetHttp { if let Some(c) = cfg.clone() { if twice { a = a.with_filter(reject_all()); } a = a.with_filter(c); } a };
+    let total: usize = caps.iter().map(|c| c.len()).sum();
+    match mode {
+        Mode::Seq => {
+            let mut a = install(HuginnNetHttp::new(None, 1000).unwrap());
+            caps.iter().map(|fs| { let (tx, rx) = std::sync::mpsc::channel(); let pc = TmpPcap::write(fs); a.analyze_pcap(pc.path(), tx, None).unwrap(); show(rx.iter().collect()) }).collect()
+        }
+        Mode::Obj => {
+            // process_parallel leaves the pool running: the same pool serves every capture
+            let mut a = install(HuginnNetHttp::with_config(None, 1000, 3, QUEUE, 4, 2).unwrap());
+            let (tx, rx) = std::sync::mpsc::channel();
+            a.init_pool(tx).unwrap();
+            for fs in caps {
+                let (tx2, _rx2) = std::sync::mpsc::channel();
+                let pc = TmpPcap::write(fs);
+                a.analyze_pcap(pc.path(), tx2, None).unwrap();
+                wait_drained(|| a.stats().map(|s| s.workers.iter().map(|w| w.queue_size).sum()).unwrap_or(0));
+            }
+            if let Some(st) = a.stats() { if st.total_dispatched != total as u64 || st.total_dropped != 0 {
+                notes.push(format!("http pool stats after {} frames: dispatched={} dropped={}", total, st.total_dispatched, st.total_dropped)); } }
+            if let Some(p) = a.worker_pool() { p.shutdown(); }
+            drop(a);
+            let mut v = show(rx.iter().collect()); v.sort();
+            vec![v]
+        }
+        Mode::ObjRe => {
+            // a fresh pool per capture through the same analyzer object (init_pool replaces the pool)
+            let mut a = install(HuginnNetHttp::with_config(None, 1000, 3, QUEUE, 4, 2).unwrap());
+            caps.iter().map(|fs| {
+                let (tx, rx) = std::sync::mpsc::channel();
+                a.init_pool(tx).unwrap();
+                let (tx2, _rx2) = std::sync::mpsc::channel();
+                let pc = TmpPcap::write(fs);
+                a.analyze_pcap(pc.path(), tx2, None).unwrap();
+                wait_drained(|| a.stats().map(|s| s.workers.iter().map(|w| w.queue_size).sum()).unwrap_or(0));
+                let pool = a.worker_pool().cloned();
+                if let Some(p) = &pool { p.shutdown(); }
+                // the analyzer keeps its Arc to the (shut down) pool; its copy of the result sender is gone after shutdown
+                let mut v = show(rx.iter().collect()); v.sort();
+                v
+            }).collect()
+        }
+        Mode::Pool => {
+            let (tx, rx) = std::sync::mpsc::channel();
+            let pool = WorkerPool::new(3, QUEUE, 4, 2, tx, None, 1000, cfg).unwrap();
+            for fs in caps { for f in fs { let _ = pool.dispatch(f.clone()); } }
+            wait_drained(|| pool.stats().workers.iter().map(|w| w.queue_size).sum());
+            pool.shutdown();
+            let mut v = show(rx.iter().collect()); v.sort();
+            vec![v]
+        }
     }
-    let mut v: Vec<String> = rx.iter().filter(|r| r.http_request.is_some() || r.http_response.is_some())
-        .map(|r| strip_timing(format!("{:?}", r))).collect();
-    if parallel { v.sort(); }
-    v
 }
-fn run_tls(frames: &[Vec<u8>], cfg: Option<m_tls::FilterConfig>, parallel: bool) -> Vec<String> {
-    use huginn_net_tls::*;
-    let (tx, rx) = std::sync::mpsc::channel::<TlsClientOutput>();
-    if parallel {
-        let pool = WorkerPool::new(3, frames.len() + 1, 4, 2, tx, 1000, cfg).unwrap();
-        for f in frames { let _ = pool.dispatch(f.clone()); }
-        wait_drained(|| pool.stats().workers.iter().map(|w| w.queue_size).sum());
-        pool.shutdown();
-    } else {
-        let pc = TmpPcap::write(frames);
-        let mut a = HuginnNetTls::new(1000);
-        if let Some(c) = cfg { a = a.with_filter(c); }
-        a.analyze_pcap(pc.path(), tx, None).unwrap();
-    }
-    let mut v: Vec<String> = rx.iter().map(|r| show_tls(&r)).collect();
-    if parallel { v.sort(); }
-    v
-}
+
 fn show_tls(r: &huginn_net_tls::TlsClientOutput) -> String {
     format!("{}:{} -> {}:{} {:?}", r.source.ip, r.source.port, r.destination.ip, r.destination.port, r.sig)
 }
-fn run_uni(frames: &[Vec<u8>], cfg: Option<m_tcp::FilterConfig>) -> Vec<String> {
+fn run_tls(caps: &[Vec<Vec<u8>>], cfg: Option<m_tls::FilterConfig>, twice: bool, mode: Mode, notes: &mut Vec<String>) -> Vec<Vec<String>> {
+    use huginn_net_tls::*;
+    let reject_all = || m_tls::FilterConfig::new().mode(m_tls::FilterMode::Allow).with_ip_filter(m_tls::IpFilter::new());
+    let install = |mut a: HuginnNetTls| -> HuginnNetTls { if let Some(c) = cfg.clone() { if twice { a = a.with_filter(reject_all()); } a = a.with_filter(c); } a };
+    let total: usize = caps.iter().map(|c| c.len()).sum();
+    match mode {
+        Mode::Seq => {
+            let mut a = install(HuginnNetTls::new(1000));
+            caps.iter().map(|fs| { let (tx, rx) = std::sync::mpsc::channel(); let pc = TmpPcap::write(fs); a.analyze_pcap(pc.path(), tx, None).unwrap(); rx.iter().map(|r| show_tls(&r)).collect() }).collect()
+        }
+        Mode::Obj | Mode::ObjRe => {
+            // the pool is created once (init_pool is a no-op afterwards; ObjRe: created lazily by the first analyze_pcap,
+            // init_pool then called before the later captures) and is never shut down by the analyzer
+            let mut a = install(HuginnNetTls::with_config_and_max_connections(3, QUEUE, 4, 2, 1000));
+            let (tx, rx) = std::sync::mpsc::channel::<TlsClientOutput>();
+            if mode == Mode::Obj { a.init_pool(tx.clone()).unwrap(); }
+            for (k, fs) in caps.iter().enumerate() {
+                if mode == Mode::ObjRe && k > 0 { a.init_pool(tx.clone()).unwrap(); }
+                let pc = TmpPcap::write(fs);
+                a.analyze_pcap(pc.path(), tx.clone(), None).unwrap();
+                wait_drained(|| a.stats().map(|s| s.workers.iter().map(|w| w.queue_size).sum()).unwrap_or(0));
+            }
+            let none = caps.iter().flatten().filter(|f| huginn_net_tls::packet_hash::hash_flow(f, 3).is_none()).count();
+            if let Some(st) = a.stats() { if st.total_dispatched + st.total_dropped != total as u64 || st.total_dropped != none as u64 {
+                notes.push(format!("tls pool stats after {} frames ({} without a flow): dispatched={} dropped={}", total, none, st.total_dispatched, st.total_dropped)); } }
+            if let Some(p) = a.worker_pool() { p.shutdown(); }
+            drop(a); drop(tx);
+            let mut v: Vec<String> = rx.iter().map(|r| show_tls(&r)).collect(); v.sort();
+            vec![v]
+        }
+        Mode::Pool => {
+            let (tx, rx) = std::sync::mpsc::channel::<TlsClientOutput>();
+            let pool = WorkerPool::new(3, QUEUE, 4, 2, tx, 1000, cfg).unwrap();
+            for fs in caps { for f in fs { let _ = pool.dispatch(f.clone()); } }
+            wait_drained(|| pool.stats().workers.iter().map(|w| w.queue_size).sum());
+            pool.shutdown();
+            let mut v: Vec<String> = rx.iter().map(|r| show_tls(&r)).collect(); v.sort();
+            vec![v]
+        }
+    }
+}
+fn run_uni(caps: &[Vec<Vec<u8>>], cfg: Option<m_tcp::FilterConfig>, twice: bool) -> Vec<Vec<String>> {
     use huginn_net::*;
-    let (tx, rx) = std::sync::mpsc::channel::<huginn_net::output::FingerprintResult>();
-    let pc = TmpPcap::write(frames);
     let ac = AnalysisConfig { http_enabled: true, tcp_enabled: true, tls_enabled: true, matcher_enabled: false };
     let mut a = HuginnNet::new(None, 1000, Some(ac)).unwrap();
-    if let Some(c) = cfg { a = a.with_filter(c); }
-    a.analyze_pcap(pc.path(), tx, None).unwrap();
-    drop(a);
-    rx.iter().filter(|r| r.tcp_syn.is_some() || r.tcp_syn_ack.is_some() || r.tcp_mtu.is_some() || r.tcp_client_uptime.is_some()
-                     || r.tcp_server_uptime.is_some() || r.http_request.is_some() || r.http_response.is_some() || r.tls_client.is_some())
-        .map(|r| strip_timing(format!("{:?}|{:?}|{:?}|{:?}|{:?}|{:?}|{:?}|{}", r.tcp_syn, r.tcp_syn_ack, r.tcp_mtu, r.tcp_client_uptime, r.tcp_server_uptime,
-                                      r.http_request, r.http_response, r.tls_client.as_ref().map(show_tls).unwrap_or_default()))).collect()
+    if let Some(c) = cfg {
+        if twice { a = a.with_filter(m_tcp::FilterConfig::new().mode(m_tcp::FilterMode::Allow).with_ip_filter(m_tcp::IpFilter::new())); }
+        a = a.with_filter(c);
+    }
+    caps.iter().map(|fs| {
+        let (tx, rx) = std::sync::mpsc::channel::<huginn_net::output::FingerprintResult>();
+        let pc = TmpPcap::write(fs);
+        a.analyze_pcap(pc.path(), tx, None).unwrap();
+        rx.iter().filter(|r| r.tcp_syn.is_some() || r.tcp_syn_ack.is_some() || r.tcp_mtu.is_some() || r.tcp_client_uptime.is_some()
+                         || r.tcp_server_uptime.is_some() || r.http_request.is_some() || r.http_response.is_some() || r.tls_client.is_some())
+            .map(|r| strip_timing(format!("{:?}|{:?}|{:?}|{:?}|{:?}|{:?}|{:?}|{}", r.tcp_syn, r.tcp_syn_ack, r.tcp_mtu, r.tcp_client_uptime, r.tcp_server_uptime,
+                                          r.http_request, r.http_response, r.tls_client.as_ref().map(show_tls).unwrap_or_default()))).collect()
+    }).collect()
 }
 
 fn run_t(toks: &[&str]) -> String {
@@ -319,20 +416,36 @@ fn run_t(toks: &[&str]) -> String {
     let mut out = format!("adm={}", adm.join(","));
     // implementation-level oracle (every trace: no known class is left after fix 3908c86)
     if frames.iter().any(|f| f.is_empty()) { return out; }
-    let sub = |should: &dyn Fn(&Ep) -> bool| -> Vec<Vec<u8>> {
-        (0..frames.len()).filter(|&k| ep[k].as_ref().map(|e| should(e)).unwrap_or(false)).map(|k| frames[k].clone()).collect() };
+    // The trace is cut into two (every fifth length: three) consecutive captures that go through ONE analyzer object,
+    // filtered; the admitted sub-trace, cut at the same places, goes through ONE unfiltered object of the same kind.
+    // Derived from the case text only: which mode (p*: analyzer object in parallel mode, re-initialised pools, or a
+    // WorkerPool built directly) and whether with_filter is called twice (a reject-all filter first: the last call wins).
+    let h: usize = frames.iter().map(|f| f.len()).sum::<usize>() + frames.len();
+    let ncap = if frames.len() % 5 == 0 { 3 } else { 2 };
+    let cut = |k: usize| k * frames.len() / ncap;
+    let twice = h % 4 == 1;
+    let mode = if which.starts_with('p') { match h % 3 { 0 => Mode::Pool, 1 => Mode::Obj, _ => Mode::ObjRe } } else { Mode::Seq };
+    let caps: Vec<Vec<Vec<u8>>> = (0..ncap).map(|c| frames[cut(c)..cut(c + 1)].to_vec()).collect();
+    let sub = |should: &dyn Fn(&Ep) -> bool| -> Vec<Vec<Vec<u8>>> {
+        (0..ncap).map(|c| (cut(c)..cut(c + 1)).filter(|&k| ep[k].as_ref().map(|e| should(e)).unwrap_or(false)).map(|k| frames[k].clone()).collect()).collect() };
+    let mut notes = Vec::new();
     let (with, plain) = match which {
-        "tcp" | "ptcp" => { let p = which == "ptcp"; (run_tcp(&frames, Some(ct.clone()), p), run_tcp(&sub(&|e| m_tcp::should(&ct, e)), None, p)) }
-        "http" | "phttp" => { let p = which == "phttp"; (run_http(&frames, Some(ch.clone()), p), run_http(&sub(&|e| m_http::should(&ch, e)), None, p)) }
-        "tls" | "ptls" => { let p = which == "ptls"; (run_tls(&frames, Some(cl.clone()), p), run_tls(&sub(&|e| m_tls::should(&cl, e)), None, p)) }
-        _ => (run_uni(&frames, Some(ct.clone())), run_uni(&sub(&|e| m_tcp::should(&ct, e)), None)),
+        "tcp" | "ptcp" => (run_tcp(&caps, Some(ct.clone()), twice, mode, &mut notes), run_tcp(&sub(&|e| m_tcp::should(&ct, e)), None, false, mode, &mut notes)),
+        "http" | "phttp" => (run_http(&caps, Some(ch.clone()), twice, mode, &mut notes), run_http(&sub(&|e| m_http::should(&ch, e)), None, false, mode, &mut notes)),
+        "tls" | "ptls" => (run_tls(&caps, Some(cl.clone()), twice, mode, &mut notes), run_tls(&sub(&|e| m_tls::should(&cl, e)), None, false, mode, &mut notes)),
+        _ => (run_uni(&caps, Some(ct.clone()), twice), run_uni(&sub(&|e| m_tcp::should(&ct, e)), None, false)),
     };
-    out.push_str(&format!("\tresults={}", with.len()));
+    out.push_str(&format!("\tresults={} mode={:?}{} captures={}", with.iter().map(|v| v.len()).sum::<usize>(), mode, if twice { "+with_filter twice" } else { "" }, ncap));
     if with != plain {
-        let k = (0..with.len().max(plain.len())).find(|&k| with.get(k) != plain.get(k)).unwrap();
-        out.push_str(&format!("\t!{}: filtered run reports {} results, unfiltered run on the admitted sub-trace {}; first difference at #{}: {:?} vs {:?}",
-            which, with.len(), plain.len(), k, with.get(k).map(|s| &s[..s.len().min(160)]), plain.get(k).map(|s| &s[..s.len().min(160)])));
+        let g = (0..with.len().max(plain.len())).find(|&g| with.get(g) != plain.get(g)).unwrap();
+        let (e1, e2) = (Vec::new(), Vec::new());
+        let (w, p) = (with.get(g).unwrap_or(&e1), plain.get(g).unwrap_or(&e2));
+        let k = (0..w.len().max(p.len())).find(|&k| w.get(k) != p.get(k)).unwrap_or(0);
+        out.push_str(&format!("\t!{} ({:?}{}): capture {} of {} through the same analyzer object: filtered run reports {} results, unfiltered run on the admitted sub-trace {}; first difference at #{}: {:?} vs {:?}",
+            which, mode, if twice { ", with_filter called twice" } else { "" }, g + 1, with.len(), w.len(), p.len(), k,
+            w.get(k).map(|s| &s[..s.len().min(160)]), p.get(k).map(|s| &s[..s.len().min(160)])));
     }
+    if !notes.is_empty() { out.push_str(&format!("\t!pool statistics with a filter installed: {}", notes.join("; "))); }
     out
 }
 
